@@ -86,7 +86,7 @@ UNNAMED_TYPE_PARTS = [("list", None, T.leaf("Value", "is_instance", tuple), None
 
 
 def units(tier):
-    return gen.chunks(len(_paths(tier)), 6) + [["NOISE"], ["CONF", 0], ["CONF", 1], ["MOD"]] + [["CALL", lo, hi] for lo, hi in gen.chunks(len(gen.callable_parts()), 12)]
+    return gen.chunks(len(_paths(tier)), 6) + [["NOISE"], ["CONF", 0], ["CONF", 1], ["MOD"]] + [["CALL", lo, hi] for lo, hi in gen.chunks(len(gen.callable_parts()) + len(gen.repeated_callable_parts()), 12)]
 
 
 def run_unit(unit, tier):
@@ -133,7 +133,7 @@ def run_unit(unit, tier):
         return res
     if unit[0] == "CALL":
         # every comparison callable in every condition position of a part
-        cps = gen.callable_parts()
+        cps = gen.callable_parts() + gen.repeated_callable_parts()    # (+ combinations repeating one callable with other arguments)
         docs = family("quick")
         for pi in range(unit[1], unit[2]):
             for how in ("api", "spec"):
